@@ -215,6 +215,14 @@ def run_case(case):
         fr = make_frame(X, f, [v for _, v in rows], quant)
         outcomes.add(check_frame(obj, f, fr, rows, viol, f"{len(rows)}-row frame", case))
         n += 1
+    if quant:
+        # frames built from records whose numeric field is None in every row: pandas makes the column `object`
+        for k in (1, 2):
+            rows = [("nan", np.nan)] * k
+            fr = make_frame(X, f, [np.nan] * k, quant)
+            fr[f] = pd.Series([None] * k, dtype=object)
+            outcomes.add(check_frame(obj, f, fr, rows, viol, f"{k}-row frame built from records (object column holding None)", case))
+            n += 1
     # 1-deviation frames of the training frame
     train_vals = X[f].tolist()
     N = len(train_vals)
